@@ -48,7 +48,7 @@ PROPS = {
         level_note='Trusts refosc.h. Elements are handed over in their own buffer followed by 4 zero bytes because the API passes no element length. Held on the trees explored.',
         technique='reference-model differential monitor under AddressSanitizer/UBSan',
         stages=[dict(harness='c08', variant='asan', quick=5000, thorough=500000,
-                     need=['bundle.built', 'inspect.bundle', 'inspect.message', 'inspect.fetch', 'inspect.depth_3',
+                     need=['bundle.built', 'inspect.bundle', 'inspect.message', 'inspect.fetch', 'inspect.depth_3', 'subtree.dirty_buffer', 'subtree.buffer_reused', 'inspect.message_address_near_bundle_marker',
                            'bundle.elements_0', 'bundle.elements_8', 'subtree.fits', 'subtree.too_small'])],
         rule='case = element tree (7 of 8) or subtree_serialize state+capacity (1 of 8); distinct = hash of the produced bytes; '
              'every case is non-trivial (>=1 bundle built and decomposed).',
@@ -61,7 +61,9 @@ PROPS = {
         stages=[dict(harness='c07', variant='plain', mode='exh', quick=5542473, thorough=99795529, min_per_shard=100000,
                      need=['exh.family_raw', 'exh.family_tagged', 'verdict.accepted', 'verdict.rejected', 'accepted.with_args']),
                 dict(harness='c07', variant='asan', mode='mut', quick=100000, thorough=5000000,
-                     need=['mut.accepted_after_mutation', 'mut.unmodified', 'accessor.iterator'])],
+                     need=['mut.accepted_after_mutation', 'mut.unmodified', 'accessor.iterator']),
+                dict(harness='c07', variant='fuzz', mode='fuzz', fuzz=True, quick=800000, thorough=64000000, min_per_shard=50000,
+                     need=['fuzz.inputs', 'fuzz.accepted', 'fuzz.corpus_seeds', 'fuzz.cov_edges_best_shard'])],
         rule='exh: every buffer of length 0..7 (quick) / 0..8 (thorough) over {00 / , s b 01 ff #} and every "/a" message with 4 tag bytes '
              'over 8 symbols x 4/8 payload bytes over 4/3 symbols x 3 truncations (exhaustive within that scope); mut: valid message + 0..3 '
              'mutations. distinct is measured on the mutation stage by hash of the bytes (and sampled 1/16384 on the exhaustive stage, whose '
